@@ -968,6 +968,22 @@ fn main_check(ctx: &Ctx) -> Outcome {
     let total = sweep(&base, n, "base", true);
     out.push_part(json!({"sweep":"base alphabet","tokens":base.len(),"max_tokens":n,"token_strings":total,"configurations":cfgs.len(),
                          "token_labels": base.iter().map(|t| t.label.clone()).collect::<Vec<_>>()}));
+    // value sweep: every 256-colour index in the three roles (the palette applies to 0..=15, the
+    // fixed table from 16), every RGB component value, every plain code, each as "CSI..m" + one character
+    {
+        let values: Vec<Tok> = vchecks::wincon_sys::value_sweep_groups()
+            .iter()
+            .map(|g| {
+                let mut t = sgr(g);
+                t.bytes.push(b'v');
+                t.label = format!("CSI{g}mv");
+                t.text = true;
+                t
+            })
+            .collect();
+        let total = sweep(&values, 1, "values", false);
+        out.push_part(json!({"sweep":"value sweep (all 256 indices x 3 roles x 2 spellings, RGB components, plain codes)","tokens":values.len(),"max_tokens":1,"token_strings":total,"configurations":cfgs.len()}));
+    }
     if !quick {
         let rich = alphabet(multi_any, true);
         let total = sweep(&rich, 3, "rich", true);
